@@ -33,6 +33,20 @@
 //   - `continue` in the body of the `loop` ends the iteration: the `result` at that point;
 //   - an entry `<header> { … }` of `around` stands for another top-level loop with that header whose
 //     body is the subject of another spec (position and header pinned, body not).
+//
+// Group "Reg" (LogicReg.lean; obligations in Proofs/GeneratedLogicReg.lean; regulator/regulator.go) adds:
+//   - `multi`: like `stmts`, but the pinned statement assigns several tracked variables, in order (a call that
+//     returns a value and has an effect: `players := r.requestPlayers(count)`); a loop may be listed by its
+//     header as `<header> { … }` (position and header pinned, the body is the subject of another spec);
+//   - `within`: with `loop`, the loop is looked for in the body of the top-level `if` with this printed header
+//     (`around` then lists the other statements of that body);
+//   - a first entry `…` of `around` stands for all the statements before the loop: they are the subject of another
+//     spec (one with `stopAt` at this loop, which translates them);
+//   - a bare `return` is looked up in `returns` as "", a `break` directly in the translated loop as "break";
+//   - float quotients (only in this group): `int(math.Ceil(float64(a) / float64(b)))` → `(regCeilDiv a' b')`,
+//     `int(math.Floor(float64(a) / float64(b)))` → `(regFloorDiv a' b')` with `a'`, `b'` the translations of
+//     `a`, `b`; the two functions are defined at the head of LogicReg.lean as `(a + b - 1) / b` and `a / b`
+//     on `Int` (DESIGN §4).  A tracked "variable" may be any printed expression (`len(r.waitingQueue)`).
 package main
 
 import (
@@ -51,21 +65,23 @@ import (
 type spec struct {
 	file, recv, name string
 	leanName         string
-	params           string               // Lean binder list
-	resultType       string               // Lean type of the result
-	tracked          map[string]string    // Go variable (printed form) -> initial Lean term
-	exprs            map[string]string    // printed Go expression -> Lean term
-	skip             []string             // statements (printed, prefix match) to ignore
-	stopAt           string               // statement (prefix) at which translation stops and `result` is returned
-	result           string               // Lean term for the result at stop / at the end (may mention tracked variables)
-	returns          map[string]string    // printed return expression -> Lean term
-	calls            map[string][2]string // printed call statement -> (tracked variable, Lean term assigned to it)
-	stmts            map[string][2]string // printed statement (any kind) -> (tracked variable, Lean term assigned to it)
-	guards           map[string][]string  // printed statement -> (Lean condition, Lean result when it holds[, tracked variable, Lean term assigned otherwise])
-	group            string               // output file: "" -> Logic.lean (hand evaluation, betting), "Flow" -> LogicFlow.lean, "SM" -> LogicSM.lean, "Glue" -> LogicGlue.lean
-	loop             string               // if set: translate the BODY of the top-level loop with this printed header (one iteration)
-	around           []string             // with `loop`: the other top-level statements of the function, printed, in order
-	effcalls         map[string]string    // [Glue] printed callee of a call statement -> effect name; the arguments are translated by `expr`
+	params           string                 // Lean binder list
+	resultType       string                 // Lean type of the result
+	tracked          map[string]string      // Go variable (printed form) -> initial Lean term
+	exprs            map[string]string      // printed Go expression -> Lean term
+	skip             []string               // statements (printed, prefix match) to ignore
+	stopAt           string                 // statement (prefix) at which translation stops and `result` is returned
+	result           string                 // Lean term for the result at stop / at the end (may mention tracked variables)
+	returns          map[string]string      // printed return expression -> Lean term
+	calls            map[string][2]string   // printed call statement -> (tracked variable, Lean term assigned to it)
+	stmts            map[string][2]string   // printed statement (any kind) -> (tracked variable, Lean term assigned to it)
+	guards           map[string][]string    // printed statement -> (Lean condition, Lean result when it holds[, tracked variable, Lean term assigned otherwise])
+	group            string                 // output file: "" -> Logic.lean (hand evaluation, betting), "Flow" -> LogicFlow.lean, "SM" -> LogicSM.lean, "Glue" -> LogicGlue.lean
+	loop             string                 // if set: translate the BODY of the top-level loop with this printed header (one iteration)
+	around           []string               // with `loop`: the other top-level statements of the function, printed, in order
+	effcalls         map[string]string      // [Glue] printed callee of a call statement -> effect name; the arguments are translated by `expr`
+	multi            map[string][][2]string // [Reg] printed statement (or `<loop header> { … }`) -> assignments (tracked variable, Lean term), in order
+	within           string                 // [Reg] with `loop`: printed header of the top-level `if` whose body holds the loop
 }
 
 var fset = token.NewFileSet()
@@ -82,7 +98,7 @@ type tr struct {
 }
 
 func leanVar(goName string) string {
-	r := strings.NewReplacer(".", "_", "(", "", ")", "", "\"", "", " ", "")
+	r := strings.NewReplacer(".", "_", "(", "", ")", "", "\"", "", " ", "", "[", "", "]", "")
 	return "v_" + r.Replace(goName)
 }
 
@@ -116,6 +132,10 @@ func (t *tr) expr(e ast.Expr) string {
 			return "(-" + t.expr(x.X) + ")"
 		}
 	case *ast.CallExpr:
+		// [Reg] int(math.Ceil(float64(a) / float64(b))), int(math.Floor(float64(a) / float64(b)))
+		if q := t.floatQuotient(x); q != "" {
+			return q
+		}
 		// int64(0) and friends
 		if id, ok := x.Fun.(*ast.Ident); ok && (id.Name == "int64" || id.Name == "int") && len(x.Args) == 1 {
 			return t.expr(x.Args[0])
@@ -157,6 +177,58 @@ func (t *tr) expr(e ast.Expr) string {
 	return "UNTRANSLATED"
 }
 
+// floatQuotient reads `int(math.Ceil(float64(a) / float64(b)))` and `int(math.Floor(float64(a) / float64(b)))`
+// (group Reg only) as the integer forms `regCeilDiv a b` and `regFloorDiv a b`.
+func (t *tr) floatQuotient(x *ast.CallExpr) string {
+	if t.s.group != "Reg" {
+		return ""
+	}
+	arg := func(e ast.Expr, fn string) ast.Expr { // e = fn(arg)
+		c, ok := e.(*ast.CallExpr)
+		if !ok || pr(c.Fun) != fn || len(c.Args) != 1 || c.Ellipsis.IsValid() {
+			return nil
+		}
+		return c.Args[0]
+	}
+	in := arg(x, "int")
+	if in == nil {
+		return ""
+	}
+	for fn, lean := range map[string]string{"math.Ceil": "regCeilDiv", "math.Floor": "regFloorDiv"} {
+		q := arg(in, fn)
+		if q == nil {
+			continue
+		}
+		b, ok := q.(*ast.BinaryExpr)
+		if !ok || b.Op != token.QUO {
+			return ""
+		}
+		n, d := arg(b.X, "float64"), arg(b.Y, "float64")
+		if n == nil || d == nil {
+			return ""
+		}
+		return "(" + lean + " " + t.expr(n) + " " + t.expr(d) + ")"
+	}
+	return ""
+}
+
+// pinned returns the printed form under which a statement may be listed in `multi`: its full text, or for a
+// loop `<header> { … }`.
+func pinnedForms(s ast.Stmt) []string {
+	forms := []string{pr(s)}
+	var b *ast.BlockStmt
+	switch x := s.(type) {
+	case *ast.RangeStmt:
+		b = x.Body
+	case *ast.ForStmt:
+		b = x.Body
+	}
+	if b != nil {
+		forms = append(forms, strings.TrimSuffix(pr(s), pr(b))+"{ … }")
+	}
+	return forms
+}
+
 func (t *tr) skipped(s ast.Stmt) bool {
 	p := pr(s)
 	for _, k := range t.s.skip {
@@ -193,6 +265,17 @@ func (t *tr) block(stmts []ast.Stmt, k string, own, outer scope) string {
 	if c, ok := t.s.stmts[pr(s)]; ok {
 		return "(let " + leanVar(c[0]) + " := " + c[1] + "\n " + t.block(rest, k, own, outer) + ")"
 	}
+	if t.s.multi != nil { // [Reg]
+		for _, f := range pinnedForms(s) {
+			if as, ok := t.s.multi[f]; ok {
+				out := t.block(rest, k, own, outer)
+				for i := len(as) - 1; i >= 0; i-- {
+					out = "(let " + leanVar(as[i][0]) + " := " + as[i][1] + "\n " + out + ")"
+				}
+				return out
+			}
+		}
+	}
 	if c, ok := t.s.guards[pr(s)]; ok {
 		cont := t.block(rest, k, own, outer)
 		if len(c) == 4 { // the statement also has an effect when the guard does not fire
@@ -222,6 +305,8 @@ func (t *tr) block(stmts []ast.Stmt, k string, own, outer scope) string {
 			if _, ok := t.s.tracked[p]; ok {
 				return leanVar(p)
 			}
+		} else if v, ok := t.s.returns[""]; ok { // [Reg] bare `return`
+			return v
 		}
 		t.fail = append(t.fail, "return: "+pr(x))
 		return "UNTRANSLATED"
@@ -246,6 +331,11 @@ func (t *tr) block(stmts []ast.Stmt, k string, own, outer scope) string {
 		// (nested loops are never entered by `block`, so an unlabelled `continue` belongs to that loop)
 		if x.Tok == token.CONTINUE && x.Label == nil && t.s.loop != "" {
 			return t.s.result
+		}
+		// [Reg] `break` directly in the body of the translated loop (not inside a nested switch: `block` would
+		// read that `break` the same way, so a spec that lists "break" must not translate a switch)
+		if v, ok := t.s.returns["break"]; ok && x.Tok == token.BREAK && x.Label == nil && t.s.loop != "" {
+			return v
 		}
 	case *ast.AssignStmt:
 		if len(x.Lhs) == 1 && len(x.Rhs) == 1 {
@@ -362,6 +452,21 @@ func (t *tr) block(stmts []ast.Stmt, k string, own, outer scope) string {
 // loopBody returns the body of the top-level loop whose header is `s.loop`, after checking that the
 // other top-level statements are exactly `s.around`.
 func (t *tr) loopBody(stmts []ast.Stmt) []ast.Stmt {
+	if t.s.within != "" { // [Reg] the loop lives in the body of a top-level `if`
+		var in []ast.Stmt
+		n := 0
+		for _, st := range stmts {
+			if x, ok := st.(*ast.IfStmt); ok && x.Init == nil && "if "+pr(x.Cond) == t.s.within {
+				in = x.Body.List
+				n++
+			}
+		}
+		if n != 1 {
+			t.fail = append(t.fail, "enclosing if not found (or not unique): "+t.s.within)
+			return []ast.Stmt{&ast.BadStmt{}}
+		}
+		stmts = in
+	}
 	var body []ast.Stmt
 	var others []string
 	found := 0
@@ -376,6 +481,9 @@ func (t *tr) loopBody(stmts []ast.Stmt) []ast.Stmt {
 		if b != nil && strings.HasPrefix(pr(st), t.s.loop+" {") {
 			body = b.List
 			found++
+			if len(t.s.around) > 0 && t.s.around[0] == "…" { // [Reg] what precedes the loop is translated by another spec
+				others = []string{"…"}
+			}
 			continue
 		}
 		if b != nil { // [Glue] another top-level loop, listed in `around` as `<header> { … }`: body left to its own spec
@@ -1165,7 +1273,7 @@ func main() {
 	if len(os.Args) > 2 {
 		out = os.Args[2]
 	}
-	for _, group := range []string{"", "Flow", "SM", "Glue"} {
+	for _, group := range []string{"", "Flow", "SM", "Glue", "Reg"} {
 		writeGroup(root, out, group)
 	}
 }
@@ -1174,6 +1282,9 @@ func writeGroup(root, out, group string) {
 	var b strings.Builder
 	b.WriteString("import Pokerface.Model.Cards\n/- GENERATED by /verif/harness/cmd/genlogic from the Go AST of the repository under test. Do not edit. -/\n")
 	b.WriteString("set_option linter.unusedVariables false\nnamespace Pokerface.Generated.Logic\nopen Pokerface\n\n")
+	if group == "Reg" {
+		b.WriteString(regPreamble)
+	}
 	for _, s := range specs {
 		if s.group != group {
 			continue
